@@ -140,3 +140,46 @@ fn c05a_lzma1_truncated_payload() { lzma1_truncated_payload(5); }
 #[kani::unwind(12)]
 #[kani::stub(crate::decoder::LZMADecoder::new, crate::decoder::verif_stubs_dec::verif_fresh_decoder)]
 fn c05a_lzma1_complete_prefix() { lzma1_truncated_payload(6); }
+
+// C16-A / C01 (reader half of the one-literal pipeline): the canonical raw LZMA1 stream of one literal (lc=lp=pb=0;
+// the byte sequences are what liblzma's encoder emits for this input and what LZMAWriter must emit - writer half:
+// c16a_lzma1_writer_one_literal_*) followed by one ARBITRARY foreign byte: the real LZMAReader delivers the literal,
+// reports the end, and has consumed exactly the stream - the foreign byte stays in the source.
+fn lzma1_reader_one_literal<const L: usize>(stream: [u8; L], lit: u8, end_marker: bool) {
+    let mut b = [0u8; 16];
+    let mut i = 0;
+    while i < L { b[i] = stream[i]; i += 1; }
+    b[L] = kani::any();
+    let mut src = Src::<16>::new(b, L + 1);
+    let size = if end_marker { u64::MAX } else { 1 };
+    let mut rd = LZMAReader::new(&mut src, size, 0, 0, 0, 4096, None).unwrap();
+    let mut out = [0u8; 4];
+    let n = rd.read(&mut out);
+    assert!(matches!(n, Ok(1)) && out[0] == lit, "C01: canonical one-literal LZMA stream does not decode to the literal");
+    let n2 = rd.read(&mut out);
+    assert!(matches!(n2, Ok(0)), "C16: end of stream not reported after the last byte");
+    let pos = rd.rc.verif_inner().pos;
+    assert!(pos == L, "C16-A: reader did not stop exactly at the end of the LZMA stream");
+    kani::cover!(true, "end reached");
+    core::mem::forget(rd);
+}
+
+//@ {"name":"c16a_lzma1_reader_one_literal_declared_size","props":["C16","C01","C03"],"obligation":"C16-A","timeout":900,"mem_gb":9,"functions":["lzma_reader::LZMAReader::new","lzma_reader::LZMAReader::read_decode","decoder::LZMADecoder::decode","decoder::LiteralSubDecoder::decode_normal","range_dec::RangeDecoder::normalize","range_dec::RangeDecoder::is_finished","lz::lz_decoder::LZDecoder::flush"],"bounds":"stream 00 20 7f fc 00 00 (literal 0x41, declared size 1, no end marker) + one arbitrary foreign byte; lc=lp=pb=0, dict 4096; two read calls; unwind 18","assumes":["LZMADecoder::new replaced by its literal-built stub (natively compared with the real constructor)"],"stubs":["LZMADecoder::new -> verif_fresh_decoder"]}
+#[kani::proof]
+#[kani::unwind(18)]
+#[kani::stub(crate::decoder::LZMADecoder::new, crate::decoder::verif_stubs_dec::verif_fresh_decoder)]
+fn c16a_lzma1_reader_one_literal_declared_size() { lzma1_reader_one_literal([0x00, 0x20, 0x7f, 0xfc, 0x00, 0x00], 0x41, false); }
+
+//@ {"name":"c16a_lzma1_reader_one_literal_ff","props":["C16","C01","C03"],"obligation":"C16-A","timeout":900,"mem_gb":9,"tier":"thorough","functions":["lzma_reader::LZMAReader::read_decode","decoder::LZMADecoder::decode","range_dec::RangeDecoder::normalize"],"bounds":"stream 00 7f 7f fc 00 00 (literal 0xFF, declared size 1) + one arbitrary foreign byte; unwind 18","assumes":["constructor stub as above"],"stubs":["LZMADecoder::new -> verif_fresh_decoder"]}
+#[kani::proof]
+#[kani::unwind(18)]
+#[kani::stub(crate::decoder::LZMADecoder::new, crate::decoder::verif_stubs_dec::verif_fresh_decoder)]
+fn c16a_lzma1_reader_one_literal_ff() { lzma1_reader_one_literal([0x00, 0x7f, 0x7f, 0xfc, 0x00, 0x00], 0xff, false); }
+
+//@ {"name":"c16a_lzma1_reader_one_literal_end_marker","props":["C16","C01","C03"],"obligation":"C16-A","timeout":1800,"mem_gb":13,"functions":["lzma_reader::LZMAReader::read_decode","decoder::LZMADecoder::decode","decoder::LZMADecoder::decode_match","decoder::LengthCoder::decode","range_dec::RangeDecoder::decode_direct_bits","range_dec::RangeDecoder::decode_reverse_bit_tree","decoder::LZMADecoder::end_marker_detected","range_dec::RangeDecoder::is_finished"],"bounds":"stream 00 20 c3 eb ff ff ff e1 00 00 00 (literal 0x41 + end marker, unknown size) + one arbitrary foreign byte; unwind 34","assumes":["constructor stub as above"],"stubs":["LZMADecoder::new -> verif_fresh_decoder"]}
+#[kani::proof]
+#[kani::unwind(34)]
+#[kani::stub(crate::decoder::LZMADecoder::new, crate::decoder::verif_stubs_dec::verif_fresh_decoder)]
+fn c16a_lzma1_reader_one_literal_end_marker() {
+    lzma1_reader_one_literal([0x00, 0x20, 0xc3, 0xeb, 0xff, 0xff, 0xff, 0xe1, 0x00, 0x00, 0x00], 0x41, true);
+}
